@@ -40,3 +40,17 @@ EQUIVALENTS += [
 EQUIVALENTS += [
     e("eq-sel-astype-copies", ["C13", "C07", "C14"], M, "sub_p_1 = subreg.pmin.copy().astype(", "sub_p_1 = subreg.pmin.astype("),
 ]
+
+# D8 of C03: conditions decided up to order types / normal form
+EQUIVALENTS += [
+    e("eq-c03-switch-lt", ["C03"], F, "if self.nvdim == 1 and other.nvdim > 1:", "if self.nvdim < other.nvdim:"),
+    e("eq-c03-switch-ne", ["C03"], F, "if self.nvdim == 1 and other.nvdim > 1:", "if other.nvdim != 1 and self.nvdim == 1:"),
+    e("eq-c03-cross-one-sided", ["C03"], F, "if self.nvdim != 3 or other.nvdim != 3:", "if self.nvdim != 3:"),
+    e("eq-c03-cross-and", ["C03"], F, "if self.nvdim != 3 or other.nvdim != 3:", "if not (self.nvdim == 3 and other.nvdim == 3):"),
+    e("eq-c03-shape-guard-demorgan", ["C03"], F,
+      "            if not (\n                self.array.shape == np.shape(other)\n                or self.nvdim == len(other)\n                or self.nvdim == 1\n            ):",
+      "            if (\n                self.array.shape != np.shape(other)\n                and len(other) != self.nvdim\n                and self.nvdim != 1\n            ):"),
+    e("eq-c03-lshift-none-order", ["C03"], F, "if self.vdims is None or other.vdims is None:", "if other.vdims is None or self.vdims is None:"),
+    e("eq-c03-allclose-atol-temp", ["C03"], R, "                atol = np.min(self.edges) * self.tolerance_factor", "                smallest = np.min(self.edges)\n                atol = self.tolerance_factor * smallest"),
+    e("eq-c03-ufunc-at-swap", ["C03"], F, '        elif method == "at":', '        elif "at" == method:'),
+]
